@@ -435,6 +435,24 @@ def rules(ctx):
     for s, v in pa:
         ok = '%s._mapping[' % selfn in src(v)
         ctx.inst('R01.6', fn, s, ok, "pairs relabelled through the mapping" if ok else "pairs are not relabelled through self._mapping")
+    if not pa:
+        # the relabelled pairs may live in their own local, filled in a loop over the parameter
+        filled = {}
+        for lp_ in [n for n in walk_no_nested(strip_docstring(fn.node.body)) if isinstance(n, ast.For) and pairsp in names_in(n.iter)]:
+            for c in calls_in(lp_, 'add'):
+                if isinstance(c.func.value, ast.Name):
+                    filled.setdefault(c.func.value.id, []).append(c)
+        used = {src(c.comparators[0]) for c in ast.walk(fn.node) if isinstance(c, ast.Compare) and len(c.ops) == 1
+                and isinstance(c.ops[0], (ast.In, ast.NotIn)) and isinstance(c.comparators[0], ast.Name)}
+        for nm, adds in filled.items():
+            for c in adds:
+                ok = bool(c.args) and ('%s._mapping[' % selfn in src(c.args[0]) or src(c.args[0]) == '()')
+                ctx.inst('R01.6', fn, c, ok, "pairs relabelled through the mapping" if ok else
+                         "pairs are not relabelled through self._mapping")
+        raw = pairsp in used
+        ctx.inst('R01.6', fn, 'membership tests of the preferred pairs', bool(filled) and not raw,
+                 "pairs are looked up in their relabelled form" if filled and not raw else
+                 "the user's pairs are looked up without being relabelled through self._mapping")
 
     # ---------------------------------------------------------------- R01.7
     for recv in ('PUSO', 'PCSO'):
